@@ -26,6 +26,9 @@ def instantiate(template, dest, subst):
     common = os.path.join(VERIF, "kani", "common")
     if os.path.isdir(common):
         shutil.copytree(common, os.path.join(dest, "common"))
+    spec = os.path.join(VERIF, "spec")
+    if os.path.isdir(spec):
+        shutil.copytree(spec, os.path.join(dest, "spec"))
     for root, _, files in os.walk(dest):
         for fn in files:
             if fn.endswith((".toml", ".rs")):
@@ -199,7 +202,7 @@ def classify(res):
     res["n_safety_checks"] = n_safety
     res["failed"] = [{"fn": c["fn"], "cls": c["cls"], "line": c["line"], "desc": c["desc"], "file": c["file"]} for c in failed]
     res["tool_limits"] = [{"fn": c["fn"], "cls": c["cls"], "line": c["line"], "desc": c["desc"]} for c in tool]
-    unreached = [o for o in obls if o["status"] == "SUCCESS" and o["reached"] is False]
+    unreached = [o for o in obls if o["status"] == "SUCCESS" and o["reached"] is False and not o["name"].startswith("?")]
     res["unreached"] = [o["name"] for o in unreached]
     del res["checks"]
     if failed:
